@@ -123,6 +123,9 @@ def main():
             d = os.path.join(base, name)
             if os.path.isfile(os.path.join(d, 'patch.diff')):
                 meta = json.load(open(os.path.join(d, 'meta.json')))
+                if meta.get('superseded_by'):
+                    print(name, 'superseded')
+                    continue
                 # run the checks recorded as catching the change (the owner, or another property's check)
                 props = sorted(k for k, v in meta.get('checks_run', {}).items() if v.get('caught')) or None
                 try:
